@@ -321,6 +321,176 @@ Ltac eqbs :=
   | |- context [?x =? ?y] => rewrite (proj2 (N.eqb_neq x y)) by lia
   end.
 
+
+(** ** projection (frame) lemmas, used by rewriting instead of conversion: unfolding the nested
+    edits by cbn makes [Qed] re-check exponentially large conversions *)
+Lemma fr_set_key_cr v p : i_cr (set_key v p) = i_cr p. Proof. reflexivity. Qed.
+Lemma fr_set_key_ep v p : i_ep (set_key v p) = i_ep p. Proof. reflexivity. Qed.
+Lemma fr_set_key_hmc v p : i_hmc (set_key v p) = i_hmc p. Proof. reflexivity. Qed.
+Lemma fr_set_key_stm v p : i_stm (set_key v p) = i_stm p. Proof. reflexivity. Qed.
+Lemma fr_set_key_nhm v p : i_nhm (set_key v p) = i_nhm p. Proof. reflexivity. Qed.
+Lemma fr_set_key_hist v p : i_hist (set_key v p) = i_hist p. Proof. reflexivity. Qed.
+Lemma fr_set_key_flag v p : i_flag (set_key v p) = i_flag p. Proof. reflexivity. Qed.
+Lemma fr_set_key_board v p : i_board (set_key v p) = i_board p. Proof. reflexivity. Qed.
+Lemma fr_set_key_ksq v p : i_ksq (set_key v p) = i_ksq p. Proof. reflexivity. Qed.
+Lemma fr_set_cr_cr v p : i_cr (set_cr v p) = v. Proof. reflexivity. Qed.
+Lemma fr_set_cr_ep v p : i_ep (set_cr v p) = i_ep p. Proof. reflexivity. Qed.
+Lemma fr_set_cr_hmc v p : i_hmc (set_cr v p) = i_hmc p. Proof. reflexivity. Qed.
+Lemma fr_set_cr_stm v p : i_stm (set_cr v p) = i_stm p. Proof. reflexivity. Qed.
+Lemma fr_set_cr_nhm v p : i_nhm (set_cr v p) = i_nhm p. Proof. reflexivity. Qed.
+Lemma fr_set_cr_hist v p : i_hist (set_cr v p) = i_hist p. Proof. reflexivity. Qed.
+Lemma fr_set_cr_flag v p : i_flag (set_cr v p) = i_flag p. Proof. reflexivity. Qed.
+Lemma fr_set_cr_board v p : i_board (set_cr v p) = i_board p. Proof. reflexivity. Qed.
+Lemma fr_set_cr_ksq v p : i_ksq (set_cr v p) = i_ksq p. Proof. reflexivity. Qed.
+Lemma fr_set_ep_cr v p : i_cr (set_ep v p) = i_cr p. Proof. reflexivity. Qed.
+Lemma fr_set_ep_ep v p : i_ep (set_ep v p) = v. Proof. reflexivity. Qed.
+Lemma fr_set_ep_hmc v p : i_hmc (set_ep v p) = i_hmc p. Proof. reflexivity. Qed.
+Lemma fr_set_ep_stm v p : i_stm (set_ep v p) = i_stm p. Proof. reflexivity. Qed.
+Lemma fr_set_ep_nhm v p : i_nhm (set_ep v p) = i_nhm p. Proof. reflexivity. Qed.
+Lemma fr_set_ep_hist v p : i_hist (set_ep v p) = i_hist p. Proof. reflexivity. Qed.
+Lemma fr_set_ep_flag v p : i_flag (set_ep v p) = i_flag p. Proof. reflexivity. Qed.
+Lemma fr_set_ep_board v p : i_board (set_ep v p) = i_board p. Proof. reflexivity. Qed.
+Lemma fr_set_ep_ksq v p : i_ksq (set_ep v p) = i_ksq p. Proof. reflexivity. Qed.
+Lemma fr_set_hmc_cr v p : i_cr (set_hmc v p) = i_cr p. Proof. reflexivity. Qed.
+Lemma fr_set_hmc_ep v p : i_ep (set_hmc v p) = i_ep p. Proof. reflexivity. Qed.
+Lemma fr_set_hmc_hmc v p : i_hmc (set_hmc v p) = v. Proof. reflexivity. Qed.
+Lemma fr_set_hmc_stm v p : i_stm (set_hmc v p) = i_stm p. Proof. reflexivity. Qed.
+Lemma fr_set_hmc_nhm v p : i_nhm (set_hmc v p) = i_nhm p. Proof. reflexivity. Qed.
+Lemma fr_set_hmc_hist v p : i_hist (set_hmc v p) = i_hist p. Proof. reflexivity. Qed.
+Lemma fr_set_hmc_flag v p : i_flag (set_hmc v p) = i_flag p. Proof. reflexivity. Qed.
+Lemma fr_set_hmc_board v p : i_board (set_hmc v p) = i_board p. Proof. reflexivity. Qed.
+Lemma fr_set_hmc_ksq v p : i_ksq (set_hmc v p) = i_ksq p. Proof. reflexivity. Qed.
+Lemma fr_set_hist_cr v p : i_cr (set_hist v p) = i_cr p. Proof. reflexivity. Qed.
+Lemma fr_set_hist_ep v p : i_ep (set_hist v p) = i_ep p. Proof. reflexivity. Qed.
+Lemma fr_set_hist_hmc v p : i_hmc (set_hist v p) = i_hmc p. Proof. reflexivity. Qed.
+Lemma fr_set_hist_stm v p : i_stm (set_hist v p) = i_stm p. Proof. reflexivity. Qed.
+Lemma fr_set_hist_nhm v p : i_nhm (set_hist v p) = i_nhm p. Proof. reflexivity. Qed.
+Lemma fr_set_hist_hist v p : i_hist (set_hist v p) = v. Proof. reflexivity. Qed.
+Lemma fr_set_hist_flag v p : i_flag (set_hist v p) = i_flag p. Proof. reflexivity. Qed.
+Lemma fr_set_hist_board v p : i_board (set_hist v p) = i_board p. Proof. reflexivity. Qed.
+Lemma fr_set_hist_ksq v p : i_ksq (set_hist v p) = i_ksq p. Proof. reflexivity. Qed.
+Lemma fr_set_phase_cr v p : i_cr (set_phase v p) = i_cr p. Proof. reflexivity. Qed.
+Lemma fr_set_phase_ep v p : i_ep (set_phase v p) = i_ep p. Proof. reflexivity. Qed.
+Lemma fr_set_phase_hmc v p : i_hmc (set_phase v p) = i_hmc p. Proof. reflexivity. Qed.
+Lemma fr_set_phase_stm v p : i_stm (set_phase v p) = i_stm p. Proof. reflexivity. Qed.
+Lemma fr_set_phase_nhm v p : i_nhm (set_phase v p) = i_nhm p. Proof. reflexivity. Qed.
+Lemma fr_set_phase_hist v p : i_hist (set_phase v p) = i_hist p. Proof. reflexivity. Qed.
+Lemma fr_set_phase_flag v p : i_flag (set_phase v p) = i_flag p. Proof. reflexivity. Qed.
+Lemma fr_set_phase_board v p : i_board (set_phase v p) = i_board p. Proof. reflexivity. Qed.
+Lemma fr_set_phase_ksq v p : i_ksq (set_phase v p) = i_ksq p. Proof. reflexivity. Qed.
+Lemma fr_set_check_flag_cr v p : i_cr (set_check_flag v p) = i_cr p. Proof. reflexivity. Qed.
+Lemma fr_set_check_flag_ep v p : i_ep (set_check_flag v p) = i_ep p. Proof. reflexivity. Qed.
+Lemma fr_set_check_flag_hmc v p : i_hmc (set_check_flag v p) = i_hmc p. Proof. reflexivity. Qed.
+Lemma fr_set_check_flag_stm v p : i_stm (set_check_flag v p) = i_stm p. Proof. reflexivity. Qed.
+Lemma fr_set_check_flag_nhm v p : i_nhm (set_check_flag v p) = i_nhm p. Proof. reflexivity. Qed.
+Lemma fr_set_check_flag_hist v p : i_hist (set_check_flag v p) = i_hist p. Proof. reflexivity. Qed.
+Lemma fr_set_check_flag_flag v p : i_flag (set_check_flag v p) = v. Proof. reflexivity. Qed.
+Lemma fr_set_check_flag_board v p : i_board (set_check_flag v p) = i_board p. Proof. reflexivity. Qed.
+Lemma fr_set_check_flag_ksq v p : i_ksq (set_check_flag v p) = i_ksq p. Proof. reflexivity. Qed.
+Lemma fr_turn_cr t d p : i_cr (turn t d p) = i_cr p. Proof. reflexivity. Qed.
+Lemma fr_turn_ep t d p : i_ep (turn t d p) = i_ep p. Proof. reflexivity. Qed.
+Lemma fr_turn_hmc t d p : i_hmc (turn t d p) = i_hmc p. Proof. reflexivity. Qed.
+Lemma fr_turn_stm t d p : i_stm (turn t d p) = N.lxor (i_stm p) 1. Proof. reflexivity. Qed.
+Lemma fr_turn_nhm t d p : i_nhm (turn t d p) = (i_nhm p + d)%Z. Proof. reflexivity. Qed.
+Lemma fr_turn_hist t d p : i_hist (turn t d p) = i_hist p. Proof. reflexivity. Qed.
+Lemma fr_turn_flag t d p : i_flag (turn t d p) = 0%Z. Proof. reflexivity. Qed.
+Lemma fr_turn_board t d p : i_board (turn t d p) = i_board p. Proof. reflexivity. Qed.
+Lemma fr_turn_ksq t d p : i_ksq (turn t d p) = i_ksq p. Proof. reflexivity. Qed.
+Lemma fr_push_hist_cr p a b c : i_cr (push_hist p a b c) = i_cr p. Proof. reflexivity. Qed.
+Lemma fr_push_hist_ep p a b c : i_ep (push_hist p a b c) = i_ep p. Proof. reflexivity. Qed.
+Lemma fr_push_hist_hmc p a b c : i_hmc (push_hist p a b c) = i_hmc p. Proof. reflexivity. Qed.
+Lemma fr_push_hist_stm p a b c : i_stm (push_hist p a b c) = i_stm p. Proof. reflexivity. Qed.
+Lemma fr_push_hist_nhm p a b c : i_nhm (push_hist p a b c) = i_nhm p. Proof. reflexivity. Qed.
+Lemma fr_push_hist_hist p a b c : i_hist (push_hist p a b c) = mkh (i_key p) a b c (i_cr p) (i_ep p) (i_hmc p) (i_flag p) :: i_hist p. Proof. reflexivity. Qed.
+Lemma fr_push_hist_flag p a b c : i_flag (push_hist p a b c) = i_flag p. Proof. reflexivity. Qed.
+Lemma fr_push_hist_board p a b c : i_board (push_hist p a b c) = i_board p. Proof. reflexivity. Qed.
+Lemma fr_push_hist_ksq p a b c : i_ksq (push_hist p a b c) = i_ksq p. Proof. reflexivity. Qed.
+Lemma fr_unturn_cr r p : i_cr (unturn r p) = i_cr p. Proof. reflexivity. Qed.
+Lemma fr_unturn_ep r p : i_ep (unturn r p) = i_ep p. Proof. reflexivity. Qed.
+Lemma fr_unturn_hmc r p : i_hmc (unturn r p) = i_hmc p. Proof. reflexivity. Qed.
+Lemma fr_unturn_stm r p : i_stm (unturn r p) = cflip (i_stm p). Proof. reflexivity. Qed.
+Lemma fr_unturn_nhm r p : i_nhm (unturn r p) = (i_nhm p - 1)%Z. Proof. reflexivity. Qed.
+Lemma fr_unturn_hist r p : i_hist (unturn r p) = r. Proof. reflexivity. Qed.
+Lemma fr_unturn_flag r p : i_flag (unturn r p) = i_flag p. Proof. reflexivity. Qed.
+Lemma fr_unturn_board r p : i_board (unturn r p) = i_board p. Proof. reflexivity. Qed.
+Lemma fr_unturn_ksq r p : i_ksq (unturn r p) = i_ksq p. Proof. reflexivity. Qed.
+Lemma fr_restore_cr h p : i_cr (restore h p) = h_cr h. Proof. reflexivity. Qed.
+Lemma fr_restore_ep h p : i_ep (restore h p) = h_ep h. Proof. reflexivity. Qed.
+Lemma fr_restore_hmc h p : i_hmc (restore h p) = h_hmc h. Proof. reflexivity. Qed.
+Lemma fr_restore_stm h p : i_stm (restore h p) = i_stm p. Proof. reflexivity. Qed.
+Lemma fr_restore_nhm h p : i_nhm (restore h p) = i_nhm p. Proof. reflexivity. Qed.
+Lemma fr_restore_hist h p : i_hist (restore h p) = i_hist p. Proof. reflexivity. Qed.
+Lemma fr_restore_flag h p : i_flag (restore h p) = h_flag h. Proof. reflexivity. Qed.
+Lemma fr_restore_board h p : i_board (restore h p) = i_board p. Proof. reflexivity. Qed.
+Lemma fr_restore_ksq h p : i_ksq (restore h p) = i_ksq p. Proof. reflexivity. Qed.
+Lemma fr_clear_ep_cr t p : i_cr (clear_ep t p) = i_cr p. Proof. rewrite clear_ep_nf; reflexivity. Qed.
+Lemma fr_clear_ep_ep t p : i_ep (clear_ep t p) = 64. Proof. rewrite clear_ep_nf; reflexivity. Qed.
+Lemma fr_clear_ep_hmc t p : i_hmc (clear_ep t p) = i_hmc p. Proof. rewrite clear_ep_nf; reflexivity. Qed.
+Lemma fr_clear_ep_stm t p : i_stm (clear_ep t p) = i_stm p. Proof. rewrite clear_ep_nf; reflexivity. Qed.
+Lemma fr_clear_ep_nhm t p : i_nhm (clear_ep t p) = i_nhm p. Proof. rewrite clear_ep_nf; reflexivity. Qed.
+Lemma fr_clear_ep_hist t p : i_hist (clear_ep t p) = i_hist p. Proof. rewrite clear_ep_nf; reflexivity. Qed.
+Lemma fr_clear_ep_flag t p : i_flag (clear_ep t p) = i_flag p. Proof. rewrite clear_ep_nf; reflexivity. Qed.
+Lemma fr_clear_ep_board t p : i_board (clear_ep t p) = i_board p. Proof. rewrite clear_ep_nf; reflexivity. Qed.
+Lemma fr_clear_ep_ksq t p : i_ksq (clear_ep t p) = i_ksq p. Proof. rewrite clear_ep_nf; reflexivity. Qed.
+Lemma fr_touch_castling_cr t p f to : i_cr (touch_castling t p f to) = N.ldiff (i_cr p) (lost_by f to). Proof. rewrite touch_castling_nf; reflexivity. Qed.
+Lemma fr_touch_castling_ep t p f to : i_ep (touch_castling t p f to) = i_ep p. Proof. rewrite touch_castling_nf; reflexivity. Qed.
+Lemma fr_touch_castling_hmc t p f to : i_hmc (touch_castling t p f to) = i_hmc p. Proof. rewrite touch_castling_nf; reflexivity. Qed.
+Lemma fr_touch_castling_stm t p f to : i_stm (touch_castling t p f to) = i_stm p. Proof. rewrite touch_castling_nf; reflexivity. Qed.
+Lemma fr_touch_castling_nhm t p f to : i_nhm (touch_castling t p f to) = i_nhm p. Proof. rewrite touch_castling_nf; reflexivity. Qed.
+Lemma fr_touch_castling_hist t p f to : i_hist (touch_castling t p f to) = i_hist p. Proof. rewrite touch_castling_nf; reflexivity. Qed.
+Lemma fr_touch_castling_flag t p f to : i_flag (touch_castling t p f to) = i_flag p. Proof. rewrite touch_castling_nf; reflexivity. Qed.
+Lemma fr_touch_castling_board t p f to : i_board (touch_castling t p f to) = i_board p. Proof. rewrite touch_castling_nf; reflexivity. Qed.
+Lemma fr_touch_castling_ksq t p f to : i_ksq (touch_castling t p f to) = i_ksq p. Proof. rewrite touch_castling_nf; reflexivity. Qed.
+Lemma fr_drop_castling_cr t p l : i_cr (drop_castling t p l) = N.ldiff (i_cr p) l. Proof. reflexivity. Qed.
+Lemma fr_drop_castling_ep t p l : i_ep (drop_castling t p l) = i_ep p. Proof. reflexivity. Qed.
+Lemma fr_drop_castling_hmc t p l : i_hmc (drop_castling t p l) = i_hmc p. Proof. reflexivity. Qed.
+Lemma fr_drop_castling_stm t p l : i_stm (drop_castling t p l) = i_stm p. Proof. reflexivity. Qed.
+Lemma fr_drop_castling_nhm t p l : i_nhm (drop_castling t p l) = i_nhm p. Proof. reflexivity. Qed.
+Lemma fr_drop_castling_hist t p l : i_hist (drop_castling t p l) = i_hist p. Proof. reflexivity. Qed.
+Lemma fr_drop_castling_flag t p l : i_flag (drop_castling t p l) = i_flag p. Proof. reflexivity. Qed.
+Lemma fr_drop_castling_board t p l : i_board (drop_castling t p l) = i_board p. Proof. reflexivity. Qed.
+Lemma fr_drop_castling_ksq t p l : i_ksq (drop_castling t p l) = i_ksq p. Proof. reflexivity. Qed.
+Lemma fr_rp_cr t p sq : i_cr (rp t p sq) = i_cr p. Proof. reflexivity. Qed.
+Lemma fr_rp_ep t p sq : i_ep (rp t p sq) = i_ep p. Proof. reflexivity. Qed.
+Lemma fr_rp_hmc t p sq : i_hmc (rp t p sq) = i_hmc p. Proof. reflexivity. Qed.
+Lemma fr_rp_stm t p sq : i_stm (rp t p sq) = i_stm p. Proof. reflexivity. Qed.
+Lemma fr_rp_nhm t p sq : i_nhm (rp t p sq) = i_nhm p. Proof. reflexivity. Qed.
+Lemma fr_rp_hist t p sq : i_hist (rp t p sq) = i_hist p. Proof. reflexivity. Qed.
+Lemma fr_rp_flag t p sq : i_flag (rp t p sq) = i_flag p. Proof. reflexivity. Qed.
+Lemma fr_rp_board t p sq : i_board (rp t p sq) = put (i_board p) sq 0. Proof. reflexivity. Qed.
+Lemma fr_rp_ksq t p sq : i_ksq (rp t p sq) = i_ksq p. Proof. reflexivity. Qed.
+Lemma fr_mp_cr t p f to : i_cr (mp t p f to) = i_cr p. Proof. reflexivity. Qed.
+Lemma fr_mp_ep t p f to : i_ep (mp t p f to) = i_ep p. Proof. reflexivity. Qed.
+Lemma fr_mp_hmc t p f to : i_hmc (mp t p f to) = i_hmc p. Proof. reflexivity. Qed.
+Lemma fr_mp_stm t p f to : i_stm (mp t p f to) = i_stm p. Proof. reflexivity. Qed.
+Lemma fr_mp_nhm t p f to : i_nhm (mp t p f to) = i_nhm p. Proof. reflexivity. Qed.
+Lemma fr_mp_hist t p f to : i_hist (mp t p f to) = i_hist p. Proof. reflexivity. Qed.
+Lemma fr_mp_flag t p f to : i_flag (mp t p f to) = i_flag p. Proof. reflexivity. Qed.
+Lemma fr_mp_board t p f to : i_board (mp t p f to) = put (put (i_board p) f 0) to (at_ (i_board p) f). Proof. reflexivity. Qed.
+Lemma fr_mp_ksq t p f to : i_ksq (mp t p f to) = if at_ (i_board p) f mod 8 =? KING then upd (at_ (i_board p) f / 8) to (i_ksq p) else i_ksq p. Proof. reflexivity. Qed.
+Lemma fr_put_raw_cr t p pc sq : i_cr (put_raw t p pc sq) = i_cr p. Proof. reflexivity. Qed.
+Lemma fr_put_raw_ep t p pc sq : i_ep (put_raw t p pc sq) = i_ep p. Proof. reflexivity. Qed.
+Lemma fr_put_raw_hmc t p pc sq : i_hmc (put_raw t p pc sq) = i_hmc p. Proof. reflexivity. Qed.
+Lemma fr_put_raw_stm t p pc sq : i_stm (put_raw t p pc sq) = i_stm p. Proof. reflexivity. Qed.
+Lemma fr_put_raw_nhm t p pc sq : i_nhm (put_raw t p pc sq) = i_nhm p. Proof. reflexivity. Qed.
+Lemma fr_put_raw_hist t p pc sq : i_hist (put_raw t p pc sq) = i_hist p. Proof. reflexivity. Qed.
+Lemma fr_put_raw_flag t p pc sq : i_flag (put_raw t p pc sq) = i_flag p. Proof. reflexivity. Qed.
+Lemma fr_put_raw_board t p pc sq : i_board (put_raw t p pc sq) = put (i_board p) sq pc. Proof. reflexivity. Qed.
+Lemma fr_put_raw_ksq t p pc sq : i_ksq (put_raw t p pc sq) = if pc mod 8 =? KING then upd (pc / 8) sq (i_ksq p) else i_ksq p. Proof. reflexivity. Qed.
+Lemma fr_rem_raw_cr t p pc sq : i_cr (rem_raw t p pc sq) = i_cr p. Proof. reflexivity. Qed.
+Lemma fr_rem_raw_ep t p pc sq : i_ep (rem_raw t p pc sq) = i_ep p. Proof. reflexivity. Qed.
+Lemma fr_rem_raw_hmc t p pc sq : i_hmc (rem_raw t p pc sq) = i_hmc p. Proof. reflexivity. Qed.
+Lemma fr_rem_raw_stm t p pc sq : i_stm (rem_raw t p pc sq) = i_stm p. Proof. reflexivity. Qed.
+Lemma fr_rem_raw_nhm t p pc sq : i_nhm (rem_raw t p pc sq) = i_nhm p. Proof. reflexivity. Qed.
+Lemma fr_rem_raw_hist t p pc sq : i_hist (rem_raw t p pc sq) = i_hist p. Proof. reflexivity. Qed.
+Lemma fr_rem_raw_flag t p pc sq : i_flag (rem_raw t p pc sq) = i_flag p. Proof. reflexivity. Qed.
+Lemma fr_rem_raw_board t p pc sq : i_board (rem_raw t p pc sq) = put (i_board p) sq 0. Proof. reflexivity. Qed.
+Lemma fr_rem_raw_ksq t p pc sq : i_ksq (rem_raw t p pc sq) = i_ksq p. Proof. reflexivity. Qed.
+#[export] Hint Rewrite fr_set_key_cr fr_set_key_ep fr_set_key_hmc fr_set_key_stm fr_set_key_nhm fr_set_key_hist fr_set_key_flag fr_set_key_board fr_set_key_ksq fr_set_cr_cr fr_set_cr_ep fr_set_cr_hmc fr_set_cr_stm fr_set_cr_nhm fr_set_cr_hist fr_set_cr_flag fr_set_cr_board fr_set_cr_ksq fr_set_ep_cr fr_set_ep_ep fr_set_ep_hmc fr_set_ep_stm fr_set_ep_nhm fr_set_ep_hist fr_set_ep_flag fr_set_ep_board fr_set_ep_ksq fr_set_hmc_cr fr_set_hmc_ep fr_set_hmc_hmc fr_set_hmc_stm fr_set_hmc_nhm fr_set_hmc_hist fr_set_hmc_flag fr_set_hmc_board fr_set_hmc_ksq fr_set_hist_cr fr_set_hist_ep fr_set_hist_hmc fr_set_hist_stm fr_set_hist_nhm fr_set_hist_hist fr_set_hist_flag fr_set_hist_board fr_set_hist_ksq fr_set_phase_cr fr_set_phase_ep fr_set_phase_hmc fr_set_phase_stm fr_set_phase_nhm fr_set_phase_hist fr_set_phase_flag fr_set_phase_board fr_set_phase_ksq fr_set_check_flag_cr fr_set_check_flag_ep fr_set_check_flag_hmc fr_set_check_flag_stm fr_set_check_flag_nhm fr_set_check_flag_hist fr_set_check_flag_flag fr_set_check_flag_board fr_set_check_flag_ksq fr_turn_cr fr_turn_ep fr_turn_hmc fr_turn_stm fr_turn_nhm fr_turn_hist fr_turn_flag fr_turn_board fr_turn_ksq fr_push_hist_cr fr_push_hist_ep fr_push_hist_hmc fr_push_hist_stm fr_push_hist_nhm fr_push_hist_hist fr_push_hist_flag fr_push_hist_board fr_push_hist_ksq fr_unturn_cr fr_unturn_ep fr_unturn_hmc fr_unturn_stm fr_unturn_nhm fr_unturn_hist fr_unturn_flag fr_unturn_board fr_unturn_ksq fr_restore_cr fr_restore_ep fr_restore_hmc fr_restore_stm fr_restore_nhm fr_restore_hist fr_restore_flag fr_restore_board fr_restore_ksq fr_clear_ep_cr fr_clear_ep_ep fr_clear_ep_hmc fr_clear_ep_stm fr_clear_ep_nhm fr_clear_ep_hist fr_clear_ep_flag fr_clear_ep_board fr_clear_ep_ksq fr_touch_castling_cr fr_touch_castling_ep fr_touch_castling_hmc fr_touch_castling_stm fr_touch_castling_nhm fr_touch_castling_hist fr_touch_castling_flag fr_touch_castling_board fr_touch_castling_ksq fr_drop_castling_cr fr_drop_castling_ep fr_drop_castling_hmc fr_drop_castling_stm fr_drop_castling_nhm fr_drop_castling_hist fr_drop_castling_flag fr_drop_castling_board fr_drop_castling_ksq fr_rp_cr fr_rp_ep fr_rp_hmc fr_rp_stm fr_rp_nhm fr_rp_hist fr_rp_flag fr_rp_board fr_rp_ksq fr_mp_cr fr_mp_ep fr_mp_hmc fr_mp_stm fr_mp_nhm fr_mp_hist fr_mp_flag fr_mp_board fr_mp_ksq fr_put_raw_cr fr_put_raw_ep fr_put_raw_hmc fr_put_raw_stm fr_put_raw_nhm fr_put_raw_hist fr_put_raw_flag fr_put_raw_board fr_put_raw_ksq fr_rem_raw_cr fr_rem_raw_ep fr_rem_raw_hmc fr_rem_raw_stm fr_rem_raw_nhm fr_rem_raw_hist fr_rem_raw_flag fr_rem_raw_board fr_rem_raw_ksq : fr.
+Lemma fr_key_rp t p sq : i_key (rp t p sq) = N.lxor (i_key p) (zp t (at_ (i_board p) sq) sq). Proof. reflexivity. Qed.
+Ltac fr := autorewrite with fr.
+Ltac fr_in H := autorewrite with fr in H.
+
 (** ** coherence only looks at the board and the board-derived fields *)
 Lemma coh_fields t p q :
   i_board p = i_board q -> i_pbb p = i_pbb q -> i_occ p = i_occ q -> i_mat p = i_mat q ->
